@@ -6,6 +6,7 @@ import gens_float
 from gens import hexs
 
 ID = "C12"
+FORMAT_GROUP = "syntax"
 LEAN_MODULES = ["LexVerif.Props.C12"]
 GEN = []
 TRUSTED = [
